@@ -554,7 +554,9 @@ impl Cluster {
             }
             {
                 let snap = n.dbs.to_snapshot.read().unwrap();
-                let v: Vec<String> = snap.iter().map(|(n, r)| format!("{}:{}", esc(n.as_bytes()), r)).collect();
+                // sorted: the full synchronisation names the databases in HashMap order
+                let mut v: Vec<String> = snap.iter().map(|(n, r)| format!("{}:{}", esc(n.as_bytes()), r)).collect();
+                v.sort();
                 out.push_str(&format!(" snap=[{}]", v.join(",")));
             }
             let map = n.dbs.map.read().unwrap();
